@@ -11,7 +11,7 @@ TInit == l = 1
 TReset == IsEv("reset")
 TWrap == IsEv("wrap") /\ ev.panic = "" /\ (ev.ok => ev.wiped)
 \* whether the unwrap succeeded or failed, every data key any region handed back is zero afterwards
-TUnwrap == IsEv("unwrap") /\ ev.panic = "" /\ ev.wipedDecrypt
+TUnwrap == (IsEv("unwrap") \/ IsEv("unwrap2")) /\ ev.panic = "" /\ ev.wipedDecrypt
 TNext == TReset \/ TWrap \/ TUnwrap
 TSpec == TInit /\ [][TNext]_l
 TraceAccepted == LET d == TLCGet("stats").diameter IN
